@@ -230,3 +230,76 @@ func inlOpen(name string) (*os.File, error) {
 	}
 	return os.Open(name)
 }
+
+// ---- normaliser, tables: the helper checks fixed offsets in a loop over a constant table;
+// written out and inlined, the caller tests b[1] and b[3] and has no loop
+func InlTable(b []byte) bool {
+	if len(b) < 4 {
+		return false
+	}
+	return inlLayout(b)
+}
+func inlLayout(b []byte) bool {
+	offs := [...]int{1, 3}
+	for _, i := range offs {
+		if b[i] != ' ' {
+			return false
+		}
+	}
+	return true
+}
+
+// ---- twin comparisons and merges: the second "c == 'q'" is the same truth value as the first,
+// so the branch that skipped case one because c != 'q' cannot be the way into case two
+func TwinGood(c byte, quoted bool) int {
+	switch {
+	case c == 'q' && !quoted:
+		return 1
+	case c == 'q':
+		return use2(2) // quoted is known true here
+	}
+	return 0
+}
+func TwinBad(c, d byte, quoted bool) int {
+	switch {
+	case c == 'q' && !quoted:
+		return 1
+	case d == 'q':
+		return use2(2) // nothing is known about quoted here
+	}
+	return 0
+}
+
+// ---- the same flag kept in a field of a state struct shared with a deferred function:
+// tracked when nothing else can write it, given up when a callee can
+type flagState struct {
+	failed bool
+	n      int
+}
+
+func FieldFlagGood(t *T, lines []string) {
+	st := &flagState{}
+	defer func(s *flagState) { _ = s.failed }(st)
+	for _, l := range lines {
+		if l == "" {
+			st.failed = true
+		}
+	}
+	if st.failed {
+		t.fatal()
+	}
+}
+func FieldFlagBad(t *T, lines []string) {
+	st := &flagState{}
+	defer func(s *flagState) { _ = s.failed }(st)
+	for _, l := range lines {
+		if l == "" {
+			st.failed = true
+		}
+		clearFlag(st)
+	}
+	if st.failed {
+		t.fatal()
+	}
+}
+func clearFlag(s *flagState) { s.failed = false }
